@@ -6,6 +6,7 @@
 -/
 import QExPy.Model.Uncert
 import QExPy.Real
+import QExPy.Lemmas.Stats
 
 namespace QExPy
 open Uncert
@@ -134,18 +135,15 @@ theorem sqrt_div_sqrt_nonneg (x y : ℝ) : 0 ≤ Real.sqrt x / Real.sqrt y :=
   div_nonneg (Real.sqrt_nonneg _) (Real.sqrt_nonneg _)
 
 theorem sem_nonneg (xs : List ℝ) : 0 ≤ Stats.sem xs := by
-  unfold Stats.sem Stats.std1
-  simp only [num_div, num_sqrt]
+  rw [Stats.sem_eq, Stats.std1_eq]
   exact sqrt_div_sqrt_nonneg _ _
 
 theorem std1_nonneg (xs : List ℝ) : 0 ≤ Stats.std1 xs := by
-  unfold Stats.std1
-  simp only [num_sqrt]
+  rw [Stats.std1_eq]
   exact Real.sqrt_nonneg _
 
 theorem perr_nonneg (es : List ℝ) : 0 ≤ Stats.perr es := by
-  unfold Stats.perr
-  simp only [num_div, num_sqrt, num_ofNat, Nat.cast_one]
+  rw [Stats.perr_eq]
   exact div_nonneg zero_le_one (Real.sqrt_nonneg _)
 
 /-- **C14 (calculated results).** The uncertainty the derivative method gives to any formula, for
@@ -317,11 +315,11 @@ theorem C14_inv_step (h : Heap ℝ) (op : Op ℝ) (hh : NonNeg h) : NonNeg (step
       · apply nonNeg_set hh
         dsimp only
         cases s with
-        | useStd => exact std1_nonneg _
-        | useSem => exact sem_nonneg _
-        | useWmean => unfold Stats.Rep.step; dsimp only; split <;> exact hqe
+        | useStd => rw [Stats.step_useStd]; exact std1_nonneg _
+        | useSem => rw [Stats.step_useSem]; exact sem_nonneg _
+        | useWmean => rw [Stats.step_useWmean]; dsimp only; split <;> exact hqe
         | usePerr =>
-          unfold Stats.Rep.step; dsimp only
+          rw [Stats.step_usePerr]; dsimp only
           split
           · exact hqe
           · exact perr_nonneg _
